@@ -464,6 +464,9 @@ psgstrf_WorkInit(int_t n, int_t panel_size, int_t **iworkptr, float **dworkptr)
 	*dworkptr = (float *) SUPERLU_MALLOC((size_t) dsize);
     else {
 	    *dworkptr = (float *) suser_malloc(dsize, TAIL);
+#ifdef SLU_MT_VERIF
+	    SLUV_YIELD(SLUV_Y_WORK_ALIGN);
+#endif
 	    if ( NotDoubleAlign(*dworkptr) ) {
 	        old_ptr = *dworkptr;
 	        *dworkptr = (float*) DoubleAlign(*dworkptr);
@@ -505,6 +508,9 @@ psgstrf_WorkInit(int_t n, int_t panel_size, int_t **iworkptr, float **dworkptr)
 #endif
     }
 
+#ifdef SLU_MT_VERIF
+    SLUV_EVENT(SLUV_E_WORK_ALLOC, *iworkptr, isize, *dworkptr, dsize, whichspace == USER, 0);
+#endif
     return 0;
 }
 
@@ -531,6 +537,9 @@ psgstrf_SetRWork(int_t n, int_t panel_size, float *dworkptr,
  */
 void psgstrf_WorkFree(int_t *iwork, float *dwork, GlobalLU_t *Glu)
 {
+#ifdef SLU_MT_VERIF
+    SLUV_EVENT(SLUV_E_WORK_FREE, iwork, dwork, 0, 0, 0, 0);
+#endif
     if ( whichspace == SYSTEM ) {
 	SUPERLU_FREE (iwork);
 	SUPERLU_FREE (dwork);
